@@ -269,9 +269,8 @@ class Builder:
                         # a load of the handle's own (unshared) data cell: a constant, no event
                         self.s.add(r == dataconst)
                         aenv[aid] = {"r": r}
-                        node[prefix] = (prev[0] if prev else None, {"sels": info["sels"], "aenv": aenv[aid]})
-                        if prev and prev[0] is None:
-                            prev = []
+                        # no event: later paths sharing this prefix must keep ALL their program-order predecessors
+                        node[prefix] = (None, {"sels": info["sels"], "aenv": aenv[aid]})
                         continue
                     if opn == "load":
                         e = Ev(tid, "R", loc, succ, None, r, None, name, opidx=opidx)
